@@ -281,7 +281,7 @@ def check(run, project):
         helpers[hname] = kind
     # __str__ delegates to __format__
     if "__str__" in fns:
-        rs = [s for s in fns["__str__"].body if isinstance(s, ast.Return)]
+        rs = [s for s in ast.walk(fns["__str__"]) if isinstance(s, ast.Return)]
         ok = len(rs) == 1 and isinstance(rs[0].value, ast.Call) and norm(rs[0].value.func) == "self.__format__"
         run.ob("N1", ok, "__str__ delegates to __format__", "TPM_RC.__str__ no longer returns self.__format__(...)",
                module=mod, node=fns["__str__"], func="TPM_RC.__str__")
